@@ -335,6 +335,20 @@ class BP(EvalObj):
     def __bool__(self):
         return self.value != 0
 
+    def evaluate(self, x):
+        # value of the polynomial at a field element (model of the repository's method for field elements)
+        if not isinstance(x, FieldElem):
+            raise TypeError("evaluate: field element expected")
+        acc = FieldElem(x.field, 0)
+        power = FieldElem(x.field, 1)
+        v = self.value
+        while v > 0:
+            if v & 1:
+                acc = acc + power
+            power = power * x
+            v >>= 1
+        return acc
+
     def to_coefficient_list(self):
         # coefficient of X^j at position j (lowest degree first), as the repository's class returns it
         from .constfold import PySeq
